@@ -10,5 +10,7 @@ func corpusDocs() []Doc {
 		{Seed: 0, Feats: []string{"float"}, HTML: `<style>@page{size:270px 270px}</style><div style="float:left;width:100px;color:red">a<br>b<br>c<br>d<br>e<br>f<br>g<br>h</div><div style="float:right;width:100px;color:blue">A<br>B<br>C<br>D<br>E<br>F<br>G<br>H</div>`},
 		// KF15-3: grid track sizing uses the map-iteration index of a spanning item
 		{Seed: 0, Feats: []string{"grid"}, HTML: `<style>@page{size:350px 441px;margin:7px}</style><div style="display:grid;grid-template-columns:1fr 1fr 1fr"><div>a</div><div style="grid-column:1 / 3;grid-row:span 2">consequently typographical</div><div>b</div><div>c</div></div>`},
+		// KF15-4: lang="fr_CHx" is no key of text.langQuotes; "fr" and "fr_CH" are both prefixes
+		{Seed: 0, Feats: []string{"lang-quotes"}, HTML: `<p lang="fr_CHx"><q>a <q>b</q></q></p>`},
 	}
 }
